@@ -54,12 +54,38 @@ func containsNode(n ast.Node, pred func(ast.Node) bool) bool {
 // rangeLoops returns the range statements of fi whose collection expression satisfies pred.
 func (w *World) rangeLoops(fi *FuncInfo, pred func(x ast.Expr) bool) []*ast.RangeStmt {
 	var out []*ast.RangeStmt
-	ast.Inspect(fi.Decl, func(n ast.Node) bool {
-		if r, ok := n.(*ast.RangeStmt); ok && pred(r.X) {
-			out = append(out, r)
-		}
-		return true
-	})
+	for i, f := range w.astRegion(fi) {
+		f := f
+		ast.Inspect(f.Decl, func(n ast.Node) bool {
+			r, ok := n.(*ast.RangeStmt)
+			if !ok {
+				return true
+			}
+			if pred(r.X) {
+				out = append(out, r)
+				return true
+			}
+			if i == 0 {
+				return true
+			}
+			// inside a new function: the collection may be a parameter - judge what the
+			// call sites pass for it
+			if id, ok := ast.Unparen(r.X).(*ast.Ident); ok {
+				if _, exprs, ok := w.argsBoundTo(f.Pkg.TypesInfo.ObjectOf(id)); ok {
+					all := true
+					for _, e := range exprs {
+						if !pred(e) {
+							all = false
+						}
+					}
+					if all {
+						out = append(out, r)
+					}
+				}
+			}
+			return true
+		})
+	}
 	return out
 }
 
@@ -82,6 +108,22 @@ type skipSpec struct {
 //
 // It returns inspected sites and a violation message.
 func (w *World) eachIteration(fi *FuncInfo, g *cfg.CFG, r *ast.RangeStmt, target func(ast.Node) bool, skips []skipSpec, errExitOK bool) ([]string, string) {
+	if owner := w.ownerOf(fi, r); owner != fi {
+		fi, g = owner, w.cfgOf(owner) // the loop was moved into a new function
+	}
+	// a call of a new function that reaches the target on every path stands for the target
+	baseTarget := target
+	target = func(n ast.Node) bool {
+		if baseTarget(n) {
+			return true
+		}
+		if c, ok := n.(*ast.CallExpr); ok {
+			if name := calleeOfCall(fi.Pkg.TypesInfo, c); name != "" && w.isNewName(name) {
+				return w.astMustReach(w.Funcs[name], baseTarget, errExitOK, 0)
+			}
+		}
+		return false
+	}
 	var body, loop, done *cfg.Block
 	for _, b := range g.Blocks {
 		if b.Stmt != ast.Stmt(r) {
@@ -397,3 +439,71 @@ func (w *World) rangeOverType(fi *FuncInfo, typeStr string) func(ast.Expr) bool 
 }
 
 var _ = token.NoPos
+
+// astMustReach: every path through new function h from entry to a return passes a node
+// satisfying target (directly or through further new functions); returns carrying an error
+// are exempt when errExitOK.
+func (w *World) astMustReach(h *FuncInfo, target func(ast.Node) bool, errExitOK bool, depth int) bool {
+	if h == nil || h.Decl.Body == nil || depth > 4 {
+		return false
+	}
+	g := w.cfgOf(h)
+	if g == nil || len(g.Blocks) == 0 {
+		return false
+	}
+	ext := func(n ast.Node) bool {
+		if target(n) {
+			return true
+		}
+		if c, ok := n.(*ast.CallExpr); ok {
+			if name := calleeOfCall(h.Pkg.TypesInfo, c); name != "" && name != h.Key && w.isNewName(name) {
+				return w.astMustReach(w.Funcs[name], target, errExitOK, depth+1)
+			}
+		}
+		return false
+	}
+	seen := map[*cfg.Block]bool{}
+	ok := true
+	var visit func(b *cfg.Block)
+	visit = func(b *cfg.Block) {
+		if !ok || seen[b] {
+			return
+		}
+		seen[b] = true
+		for _, n := range b.Nodes {
+			if containsNode(n, ext) {
+				return
+			}
+		}
+		if len(b.Succs) == 0 {
+			if len(b.Nodes) > 0 {
+				if ret, isRet := b.Nodes[len(b.Nodes)-1].(*ast.ReturnStmt); isRet {
+					if errExitOK && returnsNonNilError(h, ret) {
+						return
+					}
+					ok = false
+					return
+				}
+			}
+			if b == g.Blocks[0] || b.Live {
+				// falls off the end of a function without results, or panics
+				if len(b.Nodes) > 0 {
+					if es, isExpr := b.Nodes[len(b.Nodes)-1].(*ast.ExprStmt); isExpr {
+						if c, isCall := es.X.(*ast.CallExpr); isCall {
+							if id, isId := c.Fun.(*ast.Ident); isId && id.Name == "panic" {
+								return
+							}
+						}
+					}
+				}
+				ok = false
+			}
+			return
+		}
+		for _, s := range b.Succs {
+			visit(s)
+		}
+	}
+	visit(g.Blocks[0])
+	return ok
+}
